@@ -57,6 +57,10 @@ def scripts(draw, tier):
     c["criterion_arg"] = "default" if (crit == "relative" and draw(st.booleans())) else "explicit"    # 'relative' is the documented default
     c["rounds"] = draw(st.sampled_from([1, 1, 2]))      # a second fit() re-using the same evaluator and stopper (epoch numbers restart)
     c["clear_between"] = draw(st.booleans())           # ... with or without evaluator.clear_history() in between
+    if draw(st.integers(0, 3)) == 0:
+        # tolerance placed a few 1e-8 (relative) above or below one of the deviations the run will actually see: the decision is still well
+        # defined in double precision (the reference cuts runs only within 1e-9), but not for an implementation that loses digits
+        c["tol_near"] = {"j": draw(st.integers(0, 11)), "sign": draw(st.sampled_from([-1, 1])), "delta": draw(st.sampled_from([3e-8, 1e-7, 1e-6]))}
     c["se"] = draw(st.sampled_from([1, 1, 1, 2, 3, 4]))  # starting_epoch: epochs are numbered se..E, periods refer to the epoch NUMBER
     c["extra_names"] = draw(st.booleans())              # the evaluator tracks other quantities besides the monitored one
     c["variance_name"] = draw(st.sampled_from([None, "m", "a", "m_variance"]))    # deprecated class only: documented as ignored
@@ -141,8 +145,16 @@ def check(c):
     from qucumber.callbacks import EarlyStopping, LambdaCallback, MetricEvaluator, ObservableEvaluator, VarianceBasedEarlyStopping
     from qucumber.nn_states import PositiveWaveFunction
     from qucumber.observables import ObservableBase
+    if c.get("tol_near"):
+        p_, L_ = c["patience"], len(c["vals"])
+        if L_ > p_:
+            j_ = p_ + c["tol_near"]["j"] % (L_ - p_)
+            (a_, va_), (b_, _) = recorded_value(c, j_ - p_), recorded_value(c, j_)
+            d_ = dev(c, a_, b_, va_)
+            if d_ is not None and math.isfinite(d_) and d_ > 0:
+                c = dict(c, tol=d_ * (1 + c["tol_near"]["sign"] * c["tol_near"]["delta"]))
     plan, truncated = plan_rounds(c)
-    labels = ["criterion=" + c["criterion"], "family=" + c["family"], f"p={c['patience']}", "evaluator=" + c.get("evaluator", "metric")] + (["periods_differ"] if c["pe"] != c["ps"] else []) + ([f"starting_epoch>1"] if c.get("se", 1) > 1 else []) + (["extra_names"] if c.get("extra_names") else [])
+    labels = ["criterion=" + c["criterion"], "family=" + c["family"], f"p={c['patience']}", "evaluator=" + c.get("evaluator", "metric")] + (["periods_differ"] if c["pe"] != c["ps"] else []) + ([f"starting_epoch>1"] if c.get("se", 1) > 1 else []) + (["extra_names"] if c.get("extra_names") else []) + (["tolerance_near_a_deviation"] if c.get("tol_near") else [])
     if truncated:
         labels.append("truncated")
     if not plan:
